@@ -12,6 +12,7 @@ package main
 import (
 	"bytes"
 	"context"
+	"encoding/binary"
 	"errors"
 	"fmt"
 	"os"
@@ -255,7 +256,9 @@ func crashParseProbe(line string, bare bool) *crashProbe {
 	return p
 }
 
-func crashProbeFS(fs *crashFS, keys []string, bare bool) *crashProbe {
+// withAbs: the probe also prints the abstract disk and the comparison line for fs.recover (the values in full: not for
+// sessions with values of several MiB, for which the model is not asked)
+func crashProbeFS(fs *crashFS, keys []string, bare bool, withAbs bool) *crashProbe {
 	self, err := os.Executable()
 	if err != nil {
 		return &crashProbe{Fatal: err}
@@ -274,7 +277,11 @@ func crashProbeFS(fs *crashFS, keys []string, bare bool) *crashProbe {
 	if bare {
 		cmd = exec.CommandContext(ctx, self, "walprobe", "--dir", dir)
 	} else {
-		cmd = exec.CommandContext(ctx, self, "crashprobe", "--dir", dir, "--keys", strings.Join(keys, ","), "--abs")
+		args := []string{"crashprobe", "--dir", dir, "--keys", strings.Join(keys, ",")}
+		if withAbs {
+			args = append(args, "--abs")
+		}
+		cmd = exec.CommandContext(ctx, self, args...)
 	}
 	var so, se bytes.Buffer
 	cmd.Stdout, cmd.Stderr = &so, &se
@@ -341,8 +348,9 @@ func crashParallel(n int, f func(i int)) {
 }
 
 type crashProbeCache struct {
-	mu sync.Mutex
-	m  map[string]*crashProbe
+	mu    sync.Mutex
+	m     map[string]*crashProbe
+	noAbs bool // the abstract disk is not needed (see crashProbeFS)
 }
 
 // probeAll probes every distinct tree of the list once
@@ -360,7 +368,7 @@ func (c *crashProbeCache) probeAll(list []*crashFS, hashes []string, keys []stri
 	}
 	c.mu.Unlock()
 	results := make([]*crashProbe, len(todoFS))
-	crashParallel(len(todoFS), func(i int) { results[i] = crashProbeFS(todoFS[i], keys, bare) })
+	crashParallel(len(todoFS), func(i int) { results[i] = crashProbeFS(todoFS[i], keys, bare, !c.noAbs) })
 	c.mu.Lock()
 	defer c.mu.Unlock()
 	for i, r := range results {
@@ -967,18 +975,35 @@ func runCrash(res *Result, drv *Driver, seed uint64, n int, tier string, only in
 	res.Rule = "distinct abstract image shapes (tables partial/complete, log files header/records/torn, compaction directories flagged or not)"
 	thorough := tier == "thorough"
 	var abnormal []string
-	for idx := 0; idx < n; idx++ {
+	// sessions n, n+1: the big-record session of the flavours that log through the database (crashGenBigRecordSession;
+	// generated from a second random stream, the sessions 0..n-1 are what they were). --only n replays it.
+	var bigFlavours []string
+	switch crashFlavour {
+	case "sync", "async":
+		bigFlavours = []string{crashFlavour}
+	case "all", "":
+		bigFlavours = []string{"async", "sync"}
+	}
+	for idx := 0; idx < n+len(bigFlavours); idx++ {
 		if only >= 0 && idx != only {
 			continue
 		}
 		flavour := crashFlavourOf(idx, crashFlavour)
-		rank := 0
-		for j := 0; j < idx; j++ {
-			if crashFlavourOf(j, crashFlavour) == flavour {
-				rank++
+		var s *crashSession
+		if idx >= n {
+			flavour = bigFlavours[idx-n]
+			s = crashGenBigRecordSession(seed, idx, tier, flavour)
+			res.Stat("big-record-session")
+			res.Stat("big-record-session:" + flavour)
+		} else {
+			rank := 0
+			for j := 0; j < idx; j++ {
+				if crashFlavourOf(j, crashFlavour) == flavour {
+					rank++
+				}
 			}
+			s = crashGenSession(seed, idx, tier, flavour, rank)
 		}
-		s := crashGenSession(seed, idx, tier, flavour, rank)
 		res.Cases++
 		res.Stat("flavour:" + flavour)
 		res.Stat("profile:" + flavour + ":" + s.Profile)
@@ -1014,7 +1039,7 @@ func runCrash(res *Result, drv *Driver, seed uint64, n int, tier string, only in
 		if err != nil {
 			return fmt.Errorf("session %d (%s): %w", idx, flavour, err)
 		}
-		if idx < 3 {
+		if idx < 3 || idx >= n {
 			res.Sample(s.Describe())
 		}
 		res.StatN("events", len(run.Events))
@@ -1080,7 +1105,11 @@ func runCrash(res *Result, drv *Driver, seed uint64, n int, tier string, only in
 		// weights and sampling
 		sel := crashSelectImages(run, thorough)
 		res.StatN("image-entries-checked", len(sel))
-		cache := &crashProbeCache{m: map[string]*crashProbe{}}
+		big := false
+		for _, o := range s.Ops {
+			big = big || strings.HasPrefix(o.ValTok, "g") && o.Len > 100000
+		}
+		cache := &crashProbeCache{m: map[string]*crashProbe{}, noAbs: big || drv == nil}
 		var fss []*crashFS
 		var hs []string
 		for _, im := range sel {
@@ -1092,8 +1121,20 @@ func runCrash(res *Result, drv *Driver, seed uint64, n int, tier string, only in
 		}
 		res.StatN("images-probed", len(cache.m))
 		shapes := map[string]bool{}
+		bigPartial := map[string]bool{}
 		for _, im := range sel {
 			probe := cache.m[im.Hash]
+			// a log file that ends inside a record larger than the replayer's 4 MiB read buffer
+			if _, have, ok := crashImageBigRecordPartial(im.FS, s.Bare); ok {
+				res.Stat("image:big-record-partial")
+				if !bigPartial[im.Hash] {
+					bigPartial[im.Hash] = true
+					res.Stat("image:big-record-partial:distinct")
+					if have == 4*1024*1024 {
+						res.Stat("image:big-record-partial:log-file=header+4MiB")
+					}
+				}
+			}
 			shape := im.Abs.Shape()
 			if !shapes[shape] {
 				shapes[shape] = true
@@ -1115,13 +1156,15 @@ func runCrash(res *Result, drv *Driver, seed uint64, n int, tier string, only in
 			}
 		}
 
+		if idx >= n && len(bigPartial) == 0 {
+			// the input class this session exists for was not produced (other buffer sizes in the library?)
+			res.Stat("big-record-session:without-partial-image")
+			fmt.Fprintf(os.Stderr, "crash: session %d (big record) produced no image with a partly written record > 4 MiB\n", idx)
+		}
+
 		if !s.Bare {
 			// once per distinct image: the compaction cycle after the recovery, and the Lean abstract-disk model
 			done := map[string]bool{}
-			big := false
-			for _, o := range s.Ops {
-				big = big || strings.HasPrefix(o.ValTok, "g") && o.Len > 100000
-			}
 			for _, im := range sel {
 				if done[im.Hash] {
 					continue
@@ -1143,7 +1186,7 @@ func runCrash(res *Result, drv *Driver, seed uint64, n int, tier string, only in
 		}
 
 		// C10
-		if (crashFlavour == "all" || crashFlavour == "" || crashFlavour == "nested") && !s.Bare {
+		if (crashFlavour == "all" || crashFlavour == "" || crashFlavour == "nested") && !s.Bare && idx < n {
 			if err := crashRunNested(res, ev, run, sel, cache, thorough); err != nil {
 				return fmt.Errorf("session %d (nested): %w", idx, err)
 			}
@@ -1154,6 +1197,64 @@ func runCrash(res *Result, drv *Driver, seed uint64, n int, tier string, only in
 		return fmt.Errorf("%d session children ended abnormally (the library killed the process during normal operation?): %s", len(abnormal), strings.Join(abnormal, " || "))
 	}
 	return nil
+}
+
+// crashImageBigRecordPartial: some log file of the image ends inside the payload of a record whose header declares more
+// than 4 MiB (the read buffer of the replayer): declared payload size and the bytes of the file behind the file header.
+func crashImageBigRecordPartial(fs *crashFS, bare bool) (declared uint64, have int, ok bool) {
+	for _, p := range fs.paths() {
+		n := fs.nodes[p]
+		if n.dir || !crashIsWalPath(p, bare) {
+			continue
+		}
+		if d, partial := crashTornRecordPayload(n.data); partial && d > 4*1024*1024 {
+			return d, len(n.data) - 8, true
+		}
+	}
+	return 0, 0, false
+}
+
+// crashTornRecordPayload walks a V4 recordio file image (no checksums checked) up to a record whose header is complete
+// and whose payload is cut by the end of the file (at least one byte of it, or none, is there): its declared size.
+func crashTornRecordPayload(b []byte) (declared uint64, partial bool) {
+	if len(b) < 8 {
+		return 0, false
+	}
+	compressed := binary.LittleEndian.Uint32(b[4:8]) != 0
+	for p := 8; p < len(b); {
+		q := p
+		uv := func() (uint64, bool) {
+			v, n := binary.Uvarint(b[q:])
+			if n <= 0 {
+				return 0, false
+			}
+			q += n
+			return v, true
+		}
+		if _, ok := uv(); !ok || q >= len(b) { // magic number, then the nil flag
+			return 0, false
+		}
+		isNil := b[q] == 1
+		q++
+		un, ok1 := uv()
+		co, ok2 := uv()
+		_, ok3 := uv() // checksum
+		if !ok1 || !ok2 || !ok3 {
+			return 0, false
+		}
+		payload := un
+		if compressed {
+			payload = co
+		}
+		if isNil {
+			payload = 0
+		}
+		if uint64(len(b)-q) < payload {
+			return payload, true
+		}
+		p = q + int(payload)
+	}
+	return 0, false
 }
 
 func crashTokKind(t string) string {
